@@ -8,6 +8,8 @@ Proofs/FormulasEntropy.lean (the two entropy functions as re-translated from pyr
 -/
 import Prs.Proofs.Grouped
 import Prs.Proofs.FormulasEntropy
+import Prs.Proofs.FormulasPc2
+import Prs.Proofs.FormulasStd
 
 namespace Prs
 
@@ -237,6 +239,16 @@ theorem C13_source_stdrenyi2_joint (p pj sd sdj b : ℝ) (hb : 0 < b) :
     Generated.stdrenyi2_entropy_joint p pj sd sdj b = some (sdj / (pj * Real.log b)) ∧
     Generated.stdrenyi2_entropy_joint_nat p pj sd sdj = some (sdj / pj) := by
   rw [gen_stdrenyi2_joint, gen_stdrenyi2_joint_nat, C13_base_accepted b hb, C13_stdrenyi]
+  exact ⟨rfl, rfl⟩
+
+/-- composed with the translated bodies of `pc` and `stdpc` (Generated/FormulasPc, FormulasStd): for one feature column holding the
+sample `xs`, the source computes −log_b of `pc1 xs`, and the square root of the variance estimate over `pc1 xs · ln b` -/
+theorem C13_source_entropies_of_sample {β : Type} [DecidableEq β] (xs : List β) (pj pcnd sdj b : ℝ) (hb : 0 < b) :
+    Generated.renyi2_entropy_single ((Generated.pc_one_sample xs : ℚ) : ℝ) pj pcnd b
+      = some (renyi2 (some b) ((pc1 xs : ℚ) : ℝ)) ∧
+    Generated.stdrenyi2_entropy_single ((Generated.pc_one_sample xs : ℚ) : ℝ) pj (Generated.stdpc xs) sdj b
+      = some (Real.sqrt ((varpcN (counts xs) : ℚ) : ℝ) / (((pc1 xs : ℚ) : ℝ) * Real.log b)) := by
+  rw [gen_pc_one_sample_eq, gen_stdpc_eq, gen_renyi2_single, (C13_source_stdrenyi2_single _ pj _ sdj b hb).1, C13_base_accepted b hb]
   exact ⟨rfl, rfl⟩
 
 /-- the validation of `base` comes first in the source of both functions, in every shape of the call -/
